@@ -440,6 +440,7 @@ class Exec:
         self.site_counter = {}
         self.discont = []  # discontinuity sites (comparisons / floor / ceil of reals steering control)
         self.used_models = set()
+        self.used_contracts = set()  # names of the contracts applied at call sites (for the mechanical list of assumed callee contracts)
         self.feas_calls = 0
         self.axioms = list(PI_AXIOMS)  # global axioms added to every obligation
         self.npaths = 0
@@ -2254,6 +2255,7 @@ class Exec:
         return self.call_by_contract(c, fnode, fmod, args, kwargs, st, node)
 
     def call_by_contract(self, c: Contract, fnode, fmod, args, kwargs, st, node):
+        self.used_contracts.add(c.name)
         fq = _vshort(self)
         k = self.call_counter.get(c.qual, 0)
         key = ("callsite", id(node))
